@@ -56,7 +56,9 @@ TRUSTED = [
 ]
 ASSUMPTIONS = [
     "labels are non-negative integers < 2^31 (larger uint32/int64 values wrap in the int32 output: candidate finding "
-    "C03-L1, excluded from the generator), image values are finite, mask is boolean or 0/nonzero uint8, weight is finite",
+    "C03-L1, excluded from the generator), image values are finite, mask is boolean or uint8 with values 0/1 or 0/255 (integer masks whose non-zero values are multiples of 256, or "
+    "fractional float masks, are truthy for the seed stage but wrap/truncate to 0 as int8 in the kernel: observation in "
+    "reports/C03.md), weight is finite",
     "image has at least one row and one column",
 ]
 EXHAUSTIVE = {"quick": False, "thorough": False}
